@@ -8,8 +8,8 @@ package main
 // (field path = canonical scalar text), so the JSON codec stays outside the comparison.
 
 import (
-	"encoding/binary"
 	"bytes"
+	"encoding/binary"
 	"encoding/hex"
 	"encoding/json"
 	"errors"
@@ -111,6 +111,12 @@ func msgFromLeaves(leaves [][2]string) (*dynamicpb.Message, error) {
 					return nil, err
 				}
 				v = protoreflect.ValueOfInt64(n)
+			case protoreflect.Uint32Kind:
+				n, err := strconv.ParseUint(text, 10, 32)
+				if err != nil {
+					return nil, err
+				}
+				v = protoreflect.ValueOfUint32(uint32(n))
 			case protoreflect.BoolKind:
 				v = protoreflect.ValueOfBool(text == "true")
 			case protoreflect.BytesKind:
@@ -517,7 +523,7 @@ var restStrings = []string{"b1", "shelves/s1", "shelves/a b", "x/1", "a/q/b/r/s"
 
 var restTemplates = []string{"/v1/books", "/v1/books/{name}", "/v1/{name=shelves/*}/books", "/v1/books/{inner.id}", "/v1/{name=**}", "/v1/books:archive",
 	"/v1/items/{n}", "/v1/deep/{inner.deep.leaf}/x", "/v2/{name}/{inner.id}", "/v1/*/list", "/v1/books/{name}:verb", "/v1/shelves/{name=*}",
-	"/v1/{name}/{name}", "/v1/{book_id}/{flag}/{big}", "/v1/{name=a/*/b/**}", "/v1/{inner.id=x/*}/{name=**}:v", "/v1/{inner}"}
+	"/v1/{name}/{name}", "/v1/{book_id}/{flag}/{big}", "/v1/{name=a/*/b/**}", "/v1/{inner.id=x/*}/{name=**}:v", "/v1/{inner}", "/v1/c/{cnt}"}
 
 func streamRest(e *Emitter, rng *rand.Rand, tier string) {
 	n := 1500
@@ -593,7 +599,7 @@ func streamRest(e *Emitter, rng *rand.Rand, tier string) {
 			case 8:
 				return [2]string{"inner.deep.leaf", hs(str())}
 			case 9:
-				return [2]string{pick(rng, []string{"book_id", "book_id", "flag", "big"}), ""}
+				return [2]string{pick(rng, []string{"book_id", "book_id", "flag", "big", "cnt"}), ""}
 			case 10:
 				// bytes: values whose base64 form has `-`, `_`, both, neither; every length mod 3
 				return [2]string{"data", hs(pick(rng, []string{"???", ">>>", "?>?>", "abc", "ab", "a", "\xff\xfe\xfd", "~~~~", "hello world"}))}
@@ -609,6 +615,8 @@ func streamRest(e *Emitter, rng *rand.Rand, tier string) {
 				l[1] = hs(pick(rng, []string{"true", "false"}))
 			case "big":
 				l[1] = hs(pick(rng, []string{"9223372036854775807", "-5", "0"}))
+			case "cnt":
+				l[1] = hs(pick(rng, []string{"4294967295", "7", "0", "2147483648"}))
 			}
 			return l
 		}
@@ -654,7 +662,7 @@ func streamRest(e *Emitter, rng *rand.Rand, tier string) {
 			op.Method = "OPTIONS"
 		}
 		seg := func() string {
-			return pick(rng, []string{"b1", "a%20b", "a%2Fb", "100%25", "%C3%BC", "x:y", "a+b", "..", "shelves", "s1", "x", "a%zz", "%", "12", "-3", "true", "", "a;b"})
+			return pick(rng, []string{"b1", "a%20b", "a%2Fb", "100%25", "%C3%BC", "x:y", "a+b", "..", "shelves", "s1", "x", "a%zz", "%", "12", "-3", "true", "", "a;b", "4294967303", "4294967295"})
 		}
 		path := "/v1"
 		for k := 1 + rng.IntN(4); k > 0; k-- {
@@ -681,8 +689,8 @@ func streamRest(e *Emitter, rng *rand.Rand, tier string) {
 		op.EPath = hs(path)
 		q := []string{}
 		for k := rng.IntN(4); k > 0; k-- {
-			key := pick(rng, []string{"name", "n", "tags", "inner.id", "inner.nums", "inner.deep.leaf", "book_id", "bookId", "flag", "big", "inner", "inners", "nosuch", "inner.nosuch", "name.x", "tags.x", "Inner.id", "", "name.", "inner.", "inner..id", ".name", "inner.id.", "tags.", ".", "data", "data"})
-			val := pick(rng, []string{"v", "a%20b", "a+b", "%2F", "12", "-3", "007", "1e3", "2147483648", "null", "true", "TRUE", "1", "", "%zz", "aGVsbG8", "aGVsbG8=", "1.0", " 5", "\"q\"", "Pz8_", "Pz8%2F", "Pj4-", "Pj4%2B", "YQ==", "YQ", "YQ=", "YWI=", "YWJj", "Pz8_Pz8%2F", "YQ==YQ=="})
+			key := pick(rng, []string{"name", "n", "tags", "inner.id", "inner.nums", "inner.deep.leaf", "book_id", "bookId", "flag", "big", "inner", "inners", "nosuch", "inner.nosuch", "name.x", "tags.x", "Inner.id", "", "name.", "inner.", "inner..id", ".name", "inner.id.", "tags.", ".", "data", "data", "cnt", "cnt"})
+			val := pick(rng, []string{"v", "a%20b", "a+b", "%2F", "12", "-3", "007", "1e3", "2147483648", "null", "true", "TRUE", "1", "", "%zz", "aGVsbG8", "aGVsbG8=", "1.0", " 5", "\"q\"", "Pz8_", "Pz8%2F", "Pj4-", "Pj4%2B", "YQ==", "YQ", "YQ=", "YWI=", "YWJj", "Pz8_Pz8%2F", "YQ==YQ==", "4294967295", "4294967296", "4294967303", "18446744073709551616", "-0"})
 			q = append(q, key+"="+val)
 		}
 		op.Query = hs(strings.Join(q, "&"))
